@@ -29,6 +29,9 @@ FILES = {
     "hex.txt": "e105\nf100\nzz\n0000\n2200\nffff0\n\n",
     "nonascii.hera": None,     # written as bytes
     "-dash.hera": "SET(R1, 1)\n",
+    "incnotdir.hera": '#include "ok.hera/inner.hera"\nSET(R1, 1)\n',
+    "inclong.hera": '#include "' + "n" * 300 + '.hera"\n',
+    "incloop.hera": '#include "selfloop.hera"\n',
 }
 SUBCOMMANDS = ["debug", "assemble", "preprocess", "disassemble"]
 FLAGS = ["--big-stack", "--code", "--credits", "--data", "--help", "--no-color", "--no-debug-ops", "--obfuscate", "--quiet", "--stdout",
@@ -39,7 +42,9 @@ VALUE_FORMS = [["--throttle", "5"], ["--throttle=5"], ["--throttle", "0"], ["--t
                ["--init", "r1=5"], ["--init=r1=5,r2=7"], ["--init=r1=5, r2=0x10"], ["--initx"], ["--init="], ["--init"], ["--init", "r0=1"],
                ["--init=r1=70000"], ["--init=r1=-1"], ["--init", "rx=5"], ["--init=r1"], ["--init=R15=0b11,FP=3"], ["--init", "--init"]]
 UNKNOWN = ["--foo", "-x", "--", "-", "--big-stackx", "---", "--no-colour", "-hq", "run", "--Help"]
-PATHS = [f for f in FILES if f != "loop.hera"] + ["missing.hera", "adir", "ok.hera.lcode", "sub/../ok.hera", ""]
+# unreadable in every way open() can fail: missing, a directory, a path through a regular file, an over-long name, a symlink loop
+PATHS = [f for f in FILES if f != "loop.hera"] + ["missing.hera", "adir", "ok.hera.lcode", "sub/../ok.hera", "", "ok.hera/inner.hera",
+                                                  "n" * 300 + ".hera", "selfloop.hera"]
 
 
 def setup_dir():
@@ -57,6 +62,7 @@ def setup_dir():
     os.makedirs(os.path.join(d, "blocked.hera.lcode"))   # a directory where an output file would go
     with open(os.path.join(d, "blocked.hera"), "w") as f:
         f.write("SET(R1, 1)\n")
+    os.symlink("selfloop.hera", os.path.join(d, "selfloop.hera"))
     return d
 
 
@@ -153,8 +159,10 @@ def contract_problem(argv, r, d):
     known = set(FLAGS) | {"--throttle", "--init"}
     i = 0
     bad_flag = None
+    words = []          # the arguments that are not the value of a preceding --throttle / --init
     while i < len(scan):
         a = scan[i]
+        words.append(a)
         if a in ("--throttle", "--init"):
             if i + 1 >= len(scan) or (a == "--throttle" and not (scan[i + 1].isascii() and scan[i + 1].isdigit())):
                 bad_flag = a
@@ -174,11 +182,11 @@ def contract_problem(argv, r, d):
         return "malformed or unknown flag {} but exit status {} (usage errors must end with status 1)".format(bad_flag, r["code"])
     # documented contract: options of one mode are usage errors in another (whatever value they carry)
     if bad_flag is None and all(a.isascii() for a in argv):
-        mode = next((m for m in ("debug", "assemble", "preprocess", "disassemble") if m in scan), "")
+        mode = next((m for m in ("debug", "assemble", "preprocess", "disassemble") if m in words), "")
         allowed = {"--throttle": [""], "--init": ["", "debug"], "--code": ["assemble"], "--data": ["assemble"], "--stdout": ["assemble"],
                    "--obfuscate": ["preprocess"]}
-        info = any(a in scan for a in ("--help", "-h", "--version", "-v", "--credits"))
-        for a in scan:
+        info = any(a in words for a in ("--help", "-h", "--version", "-v", "--credits"))
+        for a in words:
             name = a.split("=")[0] if a.startswith(("--throttle=", "--init=")) else a
             if name in allowed and mode not in allowed[name] and not info and r["code"] != 1:
                 return "{} is not an option of {} mode but exit status {} (must be a usage error)".format(name, mode or "run", r["code"])
